@@ -31,7 +31,7 @@ class GenResult:
         return bad
 
 
-def run_generator(plugin, scratch_root, models=None, outdir=None, testdir=None, hashseed="0", timeout=600, extra_env=None, tag="run"):
+def run_generator(plugin, scratch_root, models=None, outdir=None, testdir=None, hashseed="0", timeout=600, extra_env=None, tag="run", optimize=False):
     """Always passes --output-dir and --test-dir inside scratch_root."""
     outdir = outdir or os.path.join(scratch_root, "out-" + tag)
     testdir = testdir or os.path.join(scratch_root, "test-" + tag)
@@ -44,6 +44,8 @@ def run_generator(plugin, scratch_root, models=None, outdir=None, testdir=None, 
     env["VF_TAP_LOG"] = logp
     env["PYTHONHASHSEED"] = str(hashseed)
     env["PYTHONDONTWRITEBYTECODE"] = "1"
+    if optimize:
+        env["PYTHONOPTIMIZE"] = "1"  # `python -O`: assert statements vanish
     if extra_env:
         env.update(extra_env)
     cmd = [common.PY, "-m", "generator", "--plugin", plugin, "--output-dir", outdir, "--test-dir", testdir]
